@@ -20,9 +20,11 @@ import (
 )
 
 type world struct {
-	impl *probe.Impl
-	sess bus.Session
-	ref  object.ObjectReference // reference to the Probe service object
+	impl  *probe.Impl
+	impl2 *probe.Impl // the second service (Probe2) of the same host, same endpoint
+	other bus.Session // another participant's session (registers unrelated services)
+	sess  bus.Session
+	ref   object.ObjectReference // reference to the Probe service object
 }
 
 // start: a directory on tcp://sd, a second server on tcp://b hosting the
@@ -60,6 +62,13 @@ func start(twoHosts bool, multi ...bool) *world {
 		if _, err := srv.NewService(name, probe.ProbeObject(impl)); err != nil {
 			panic(fmt.Sprintf("host service: %v", err))
 		}
+		if name == "Probe" {
+			// a second service behind the same endpoint
+			w.impl2 = probe.New("root2")
+			if _, err := srv.NewService("Probe2", probe.ProbeObject(w.impl2)); err != nil {
+				panic(fmt.Sprintf("host service 2: %v", err))
+			}
+		}
 	}
 	host("tcp://b", "Probe", w.impl)
 	if twoHosts {
@@ -83,6 +92,7 @@ func start(twoHosts bool, multi ...bool) *world {
 		panic(fmt.Sprintf("reference proxy: %v", err))
 	}
 	w.ref = bus.ObjectReference(px)
+	w.other = s2
 	vrt.Quiesce()
 	return w
 }
@@ -116,6 +126,26 @@ func body(services_ []string, fine bool, multi ...bool) func() {
 				defer func() { r.done = true }()
 				var p bus.Proxy
 				var err error
+				if r.service == "churn" {
+					// another participant registers, readies and withdraws an
+					// unrelated service: the directory signals every session
+					dp, err := w.other.Proxy("ServiceDirectory", 1)
+					if err != nil {
+						r.err = err
+						return
+					}
+					sd := services.MakeServiceDirectory(w.other, dp)
+					id, err := sd.RegisterService(services.ServiceInfo{Name: "Churn", MachineId: "m9", ProcessId: 9, Endpoints: []string{"tcp://nowhere"}})
+					if err == nil {
+						err = sd.ServiceReady(id)
+					}
+					if err == nil {
+						err = sd.UnregisterService(id)
+					}
+					r.err = err
+					r.ok = err == nil
+					return
+				}
 				if r.service == "Probe-by-reference" {
 					// Session.Object: a proxy from an object reference
 					p, err = w.sess.Object(w.ref)
@@ -185,6 +215,7 @@ func body(services_ []string, fine bool, multi ...bool) func() {
 		vrt.Observe("dials b=%d c=%d open b=%d", vnet.Dials["tcp://b"], vnet.Dials["tcp://c"], vnet.OpenClientConns("tcp://b"))
 	}
 }
+
 // reconnect: the pooled connection to an endpoint is lost (the remote side
 // closes it); later concurrent requests dial again, succeed and share one
 // connection.
@@ -257,6 +288,7 @@ func reconnect() {
 	fx.Settle()
 	vrt.Observe("concurrent=%v errs=%v dials=%d open=%d", concurrent, errs[0] != nil || errs[1] != nil, vnet.Dials["tcp://b"], vnet.OpenClientConns("tcp://b"))
 }
+
 // unreachable: a registered service advertised only with addresses that are
 // never dialled (the 198.18.0.x test range) or that nobody listens on: the
 // request cannot succeed, but it must fail with an error - not crash - and
@@ -305,6 +337,7 @@ func unreachable() {
 	}
 	vrt.Observe("kind=%d e1=%v", kind, e1 != nil)
 }
+
 // register a service name with arbitrary addresses through a helper session.
 func advertise(name string, eps []string) bool {
 	hs, err := session.NewSession("tcp://sd")
@@ -414,6 +447,7 @@ func failedThenAgain() {
 	}
 	vrt.Observe("dials=%d open=%d", vnet.Dials["tcp://b"], vnet.OpenClientConns("tcp://b"))
 }
+
 // twoReferences: two goroutines turn the same object reference into a proxy
 // (Session.Object) and call the same method with different arguments while
 // both calls are in flight: each gets its own answer (the proxies share the
@@ -518,6 +552,10 @@ func init() {
 		Doc: "a registered service whose advertised addresses are never dialled (test range) or dead: its request fails with an error, no crash, while another goroutine gets a working proxy to a reachable service"})
 	reg.Register(&reg.Scenario{Property: "C19", Name: "reconnect-after-connection-loss", Body: reconnect, Quick: 2, Thorough: 3,
 		Doc: "the pooled connection to an endpoint is closed by the remote side (before, or while, two goroutines request proxies): the session dials again, the requests succeed and share one connection", MustFlag: []string{"dialled-again:tcp://b"}})
+	reg.Register(&reg.Scenario{Property: "C19", Name: "two-services-one-endpoint", Body: body([]string{"Probe", "Probe2"}, false), Quick: 1, Thorough: 2,
+		Doc: "two goroutines request two DIFFERENT services hosted behind the same, not yet connected endpoint: both succeed, one connection to that endpoint"})
+	reg.Register(&reg.Scenario{Property: "C19", Name: "requests-during-directory-churn", Body: body([]string{"Probe", "churn", "Probe-by-reference"}, false), Quick: 1, Thorough: 2,
+		Doc: "a Proxy and an Object request while another participant registers, readies and unregisters an unrelated service (the directory's signals make the session refresh its service list): every request for a registered service succeeds"})
 	reg.Register(&reg.Scenario{Property: "C19", Name: "two-same-endpoint", Body: body([]string{"Probe", "Probe"}, false), Quick: 1, Thorough: 2,
 		Doc: "two goroutines request a proxy to the same not-yet-connected service and call it", MustFlag: []string{"dialled-twice:tcp://b"}})
 	reg.Register(&reg.Scenario{Property: "C19", Name: "two-same-endpoint-several-addresses", Body: body([]string{"Probe", "Probe-by-reference"}, false, true), Quick: 1, Thorough: 2,
